@@ -384,13 +384,13 @@ Section RandomWalk.
 End RandomWalk.
 Print Assumptions C12_walk_use_schedule.
 
-(* a toy random source (always the largest move, always downwards): the walk over [10; 20; 30] with wrap = false leaves the list at
-   once; three steps have read exactly three values of each bound (the three-element sequences are back at their start, one repeat done) *)
+(* a toy random source (always the largest move, always downwards): the walk over [10; 20; 30] with wrap = false goes -2 (Python's index from the end), -1, -1 and
+   leaves the list on the third step; three steps have read exactly three values of each bound (the three-element sequences are back at their start, one repeat done) *)
 Example C12_walk_nonvacuous :
   let qm := PSequence (AL [AV (VInt 1); AV (VInt 0); AV (VInt 1)]) (AV (VInt 9)) 0 0 in
   let qx := PSequence (AL [AV (VInt 2); AV (VInt 1); AV (VInt 1)]) (AV (VInt 9)) 0 0 in
   let r_unit := fun g : Z => (0, g + 1) in let r_below := fun (n : Z) (g : Z) => (n - 1, g + 1) in
   let '(rs, o, g) := rw_outputs Z r_unit r_below Val.binop 10 6 3 [10; 20; 30] false (mkRW (AP qm) (AP qx) 0) 0 in
-  rs = [Chance.Out (Chance.OZ 20); Chance.Fail; Chance.Fail]
+  rs = [Chance.Out (Chance.OZ 20); Chance.Out (Chance.OZ 10); Chance.Fail]
   /\ w_min o = AP (PSequence (AL [AV (VInt 1); AV (VInt 0); AV (VInt 1)]) (AV (VInt 9)) 1 0) /\ w_pos o = -4.
 Proof. vm_compute. repeat split. Qed.
